@@ -72,17 +72,20 @@ pub fn ttl_any() -> BoxedStrategy<Option<WTtl>> {
         2 => Just(Some(WTtl::Ephemeral)),
         4 => proptest::sample::select(TIME_NS).prop_map(|n| Some(WTtl::Time(n))),
         4 => prop_oneof![4 => 1u32..=5, 1 => Just(u32::MAX)].prop_map(|k| Some(WTtl::Head(k))),
+        // not a TTL: must be refused at every boundary, the Store API included
+        1 => Just(Some(WTtl::Head(0))),
     ]
     .boxed()
 }
 
-/// TTLs a stored (persistent) frame can carry.
+/// TTLs a stored (persistent) frame can carry (plus, rarely, `head:0`, which none can).
 pub fn ttl_persistent() -> BoxedStrategy<Option<WTtl>> {
     prop_oneof![
         4 => Just(None),
         2 => Just(Some(WTtl::Forever)),
         4 => proptest::sample::select(TIME_NS).prop_map(|n| Some(WTtl::Time(n))),
         4 => prop_oneof![4 => 1u32..=5, 1 => Just(u32::MAX)].prop_map(|k| Some(WTtl::Head(k))),
+        1 => Just(Some(WTtl::Head(0))),
     ]
     .boxed()
 }
